@@ -129,6 +129,8 @@ def build_lib(variant):
         with ThreadPoolExecutor(16) as ex:
             objs = list(ex.map(comp, srcs))
         sh(["ar", "rcs", os.path.join(tmp, "libcpputest.a")] + objs)
+        with open(os.path.join(tmp, "ROOT"), "w") as f:
+            f.write(REPO)
         for o in objs:
             os.remove(o)
         os.rename(tmp, out)
@@ -222,10 +224,24 @@ def warm():
     print("warm: %d binaries in %.1fs" % (len(jobs), time.time() - t0))
 
 
+def gc():
+    """drop build output of scratch repository copies that no longer exist"""
+    for d in os.listdir(BUILD):
+        rf = os.path.join(BUILD, d, "ROOT")
+        if d.startswith("lib-") and os.path.exists(rf):
+            root = open(rf).read().strip()
+            if not os.path.isdir(root):
+                shutil.rmtree(os.path.join(BUILD, d), ignore_errors=True)
+                print("gc: removed", d, "(root", root, "is gone)")
+
+
 def main():
     os.makedirs(BUILD, exist_ok=True)
     if sys.argv[1] == "--warm":
         warm()
+        return
+    if sys.argv[1] == "--gc":
+        gc()
         return
     variant, harness = sys.argv[1], sys.argv[2]
     engine = "rc"
